@@ -198,13 +198,15 @@ def _patch_source(obj, fname, old, new, count=1):
     Returns an undo closure.  /repo is untouched."""
     fn = obj.__dict__[fname]
     raw = fn.__func__ if isinstance(fn, (staticmethod, classmethod)) else fn
-    src = inspect.getsource(raw)
+    src = getattr(raw, '_c05_src', None) or inspect.getsource(raw)      # (patches stack)
     if src.count(old) < 1:
         raise common.MachineryError('mutant: %r not found in %s.%s' % (old, obj.__name__, fname))
-    src = textwrap.dedent(src.replace(old, new, count))
+    raw_src = src.replace(old, new, count)
+    src = textwrap.dedent(raw_src)
     mod = inspect.getmodule(obj)
     ns = {}
     exec(compile(src, '<mutant %s.%s>' % (obj.__name__, fname), 'exec'), mod.__dict__, ns)
+    ns[fname]._c05_src = raw_src
     setattr(obj, fname, ns[fname])
     return lambda: setattr(obj, fname, fn)
 
@@ -227,7 +229,8 @@ def _mutants():
         'max_len_25': attr(lg.LogConfig, 'MAX_LEN', 25),
         'max_len_27': attr(lg.LogConfig, 'MAX_LEN', 27),
         'period_le_255': src(lg.Log, 'add_config', 'logconf.period < 0xFF', 'logconf.period <= 0xFF'),
-        'skip_var_on_split': src(lg.LogConfig, '_setup_log_elements', 'return False, i', 'return False, i + 1'),
+        'skip_var_on_split': src(lg.LogConfig, '_setup_log_elements', '# Packet is full\n                        return False, i',
+                                 '# Packet is full\n                        return False, i + 1'),
         'index_big_endian': src(lg.LogConfig, '_setup_log_elements',
                                 'pk.data.append(element_id & 0x0ff)\n                        pk.data.append((element_id >> 8) & 0x0ff)',
                                 'pk.data.append((element_id >> 8) & 0x0ff)\n                        pk.data.append(element_id & 0x0ff)'),
@@ -590,7 +593,14 @@ class Exec:
         for i in range(n):
             self.emit(bid, [i & 0xFF, 1, 0], (src[0], src[1] + i) if src[0] != 'sweep' else src)
         closer = self.s.spawn(self.cf.close_link, 'closer')
-        pol = vsched.RandomPolicy(random.Random(seed))
+        # uniform random choices, PCT priorities, or a starved consumer (samples are still queued at the disconnect)
+        if seed % 3 == 0:
+            pol = vsched.RandomPolicy(random.Random(seed))
+        elif seed % 3 == 1:
+            pol = vsched.PCTPolicy(random.Random(seed), depth=3, est_steps=150)
+        else:
+            pol = _StarvePolicy(random.Random(seed), 'consumer')
+            pol.until = self.s.now + 5.0
         self.s.run(until=lambda: closer.finished and not self.s.enabled()[0], horizon=self.s.now + 30.0, policy=pol)
         self.logsvc.emitted = []
         self.begin = None
@@ -598,6 +608,25 @@ class Exec:
         before = self.flags()
         self.connect()
         self.ev.append({'e': 'reconnect', 'before': before, 'after': self.flags(), 'st': self.project()})
+
+
+class _StarvePolicy:
+    """seeded uniform choice among the runnable threads; the named one runs only when nothing else can run and no
+    timer is pending (a slow consumer: virtual time passes before it gets the processor)"""
+
+    def __init__(self, rng, starved):
+        self.rng = rng
+        self.starved = starved
+        self.until = float('inf')
+
+    def choose(self, sched, runnable, timed):
+        if not runnable:
+            return vsched.TICK
+        others = [r for r in runnable if not r.name.startswith(self.starved)]
+        if not others and timed and sched.now < self.until:
+            return vsched.TICK
+        pool = others or runnable
+        return pool[self.rng.randrange(len(pool))]
 
 
 def execute(sc, mutant=None):
@@ -1235,6 +1264,15 @@ def _judge_tagged(tagged, variant, nproc):
 
 class _Bg:
     """run fn(*args) in a forked process while the main process goes on"""
+    live = []
+
+    @classmethod
+    def cleanup(cls):
+        for b in cls.live:
+            if b.p.is_alive():
+                b.p.terminate()
+                b.p.join(5)
+        cls.live = []
 
     def __init__(self, fn, *args):
         import multiprocessing as mp
@@ -1243,6 +1281,7 @@ class _Bg:
         self.p = ctx.Process(target=self._run, args=(tx, fn, args))
         self.p.start()
         tx.close()
+        _Bg.live.append(self)
 
     @staticmethod
     def _run(tx, fn, args):
@@ -1268,6 +1307,13 @@ class _Bg:
 
 
 def main(tier, seed, replay=None):
+    try:
+        return _main(tier, seed, replay)
+    finally:
+        _Bg.cleanup()          # no TLC / worker process of this check survives a failure
+
+
+def _main(tier, seed, replay=None):
     out = common.Outcome('C05', tier, seed)
     rng = random.Random(seed)
     out.assumptions = ASSUMPTIONS
